@@ -245,6 +245,8 @@ Partially_Reduced_Product<D1, D2, R>
   y.reduce();
   d1.upper_bound_assign(y.d1);
   d2.upper_bound_assign(y.d2);
+  // The upper bounds of reduced components need not be reduced.
+  clear_reduced_flag();
 }
 
 template <typename D1, typename D2, typename R>
@@ -264,6 +266,8 @@ Partially_Reduced_Product<D1, D2, R>
   }
   using std::swap;
   swap(d1, d1_copy);
+  // The upper bounds of reduced components need not be reduced.
+  clear_reduced_flag();
   return true;
 }
 
